@@ -44,6 +44,24 @@ impl ContentFilteredTopicEntity {
     }
 }
 
+/// The value a filter expression compares with: the operand is the text after the operator.
+/// `%n` selects the n-th expression parameter, a single-quoted string stands for its content and an
+/// integer literal for itself. Anything else (including `%n` beyond the parameter list) is `None`.
+pub fn filter_operand<'a>(operand: &'a str, expression_parameters: &'a [String]) -> Option<&'a str> {
+    let operand = operand.trim();
+    if let Some(index) = operand.strip_prefix('%') {
+        expression_parameters
+            .get(index.parse::<usize>().ok()?)
+            .map(String::as_str)
+    } else if operand.len() >= 2 && operand.starts_with('\'') && operand.ends_with('\'') {
+        Some(&operand[1..operand.len() - 1])
+    } else if operand.parse::<i32>().is_ok() {
+        Some(operand)
+    } else {
+        None
+    }
+}
+
 #[allow(clippy::large_enum_variant)]
 pub enum DiscoveredTypeRepresentationState {
     Requested,
